@@ -5,6 +5,7 @@
 From ACV Require Import Base.Strs Model.Report Model.Names Model.Dnf Model.Escape Model.TemplatesRef.
 From ACV Require Import Proofs.ReportProofs Proofs.NamesProofs Proofs.DnfFuel Proofs.EscapeProofs Extracted.NameFacts Extracted.Templates.
 From ACV Require Import Model.PathGrammar Model.PathSem Model.PathGen Proofs.PathGenProofs Model.RuleGen Proofs.RuleGenProofs.
+From ACV Require Import Model.Dnf Model.Yaml Model.ProfileParser Model.Compile Model.Elab Proofs.CompileProofs.
 Local Open Scope string_scope.
 
 (* ties: the variable alphabet and the name formats are the modelled ones; the snippets that use the names *)
@@ -145,6 +146,91 @@ Theorem C07_rule_text_example :
      "}"]%string.
 Proof. exact rule_lines_example. Qed.
 
+(* The whole generator as one function (Model/Elab.v: the parser that keeps what the generator reads; Model/Compile.v: Dispatch with
+   the name counter threaded, the snippets, wrapBranch, Generate), compared byte for byte with generator.Generate in the run.
+   It is total: a profile the parser accepts always gets its module (the recursion through Negate() runs on fuel, and the fuel
+   given is enough), whatever the value of the name counter. *)
+Theorem C07_text_generator_terminates : forall r c, gen (S (mu r)) r c <> None.
+Proof. exact gen_total. Qed.
+Theorem C07_accepted_profile_gets_its_module : forall defaults preamble doc c p,
+  elab_profile defaults doc = POk p -> exists text c', compile defaults preamble doc c = POk (text, c').
+Proof. exact compile_total. Qed.
+(* non-vacuity: an `or` of a nested constraint over an inverse path and a negated pattern, with a message placeholder *)
+Definition c07_ex_doc : ynode :=
+  YMap [("profile", YScalar "!!str" "Ex");
+        ("violation", YSeq [YScalar "!!str" "v1"]);
+        ("validations", YMap [("v1", YMap [("targetClass", YScalar "!!str" "ex.T"); ("message", YScalar "!!str" "m {{ex.a}}");
+           ("or", YSeq [YMap [("propertyConstraints", YMap [("ex.b", YMap [("nested", YMap [("propertyConstraints", YMap [("ex.c ^", YMap [("minCount", YScalar "!!int" "1")])])])])])];
+                        YMap [("not", YMap [("propertyConstraints", YMap [("ex.a", YMap [("pattern", YScalar "!!str" "^a")])])])]])])])].
+Theorem C07_module_text_example :
+  compile [("ex", "http://e/#")] "PRE" c07_ex_doc 0 = POk ("package profile_ex
+
+report[""profile""] = ""Ex""
+PRE
+
+default warning = []
+
+default info = []
+# Path rules
+
+gen_path_set_rule_1[nodes] {
+  init_x_0 = data.sourceNode
+  nodes_tmp = object.get(init_x_0,""http://e/#a"",[])
+  nodes_tmp2 = nodes_array with data.nodes as nodes_tmp
+  x_0 = nodes_tmp2[_]
+  nodes = x_0
+}
+
+gen_path_set_rule_3[nodes] {
+  init_x_0 = data.sourceNode
+  tmp_x_0 = nested_nodes with data.nodes as init_x_0[""http://e/#b""]
+  x_0 = tmp_x_0[_][_]
+  nodes = x_0
+}
+
+gen_path_set_rule_5[nodes] {
+  init_y_0 = data.sourceNode
+  search_subjects[y_0] with data.predicate as ""http://e/#c"" with data.object as init_y_0
+  nodes = y_0
+}
+
+# Constraint rules
+
+violation[matches] {
+  target_class[x] with data.class as ""http://e/#T""
+  #  querying path: ex.a
+  gen_gen_path_set_rule_1_node_2_array = gen_path_set_rule_1 with data.sourceNode as x
+  gen_gen_path_set_rule_1_node_2 = gen_gen_path_set_rule_1_node_2_array[_]
+  regex.match(`^a`,gen_gen_path_set_rule_1_node_2)
+  _result_0 := trace(""pattern"",""http://e/#a"",x,{""@type"": [""reportSchema:TraceValueNode"", ""validation:TraceValue""], ""negated"":true,""expected"": ""^a"",""actual"": gen_gen_path_set_rule_1_node_2})
+  #  querying path: ex.b
+  ys = gen_path_set_rule_3 with data.sourceNode as x
+  y_errorAcc0 = []
+  ys_br_0 = [ ys_br_0_error|
+    y = ys[_]
+    #  querying path: ex.c ^
+    gen_propValues_4 = gen_path_set_rule_5 with data.sourceNode as y
+    not count(gen_propValues_4) >= 1
+    _result_0 := trace(""minCount"",""http://e/#c^"",y,{""@type"": [""reportSchema:TraceValueNode"", ""validation:TraceValue""], ""negated"":false,""condition"":"">="",""actual"": count(gen_propValues_4),""expected"": 1})
+    message := ""error in nested nodes under http://e/#b""
+    ys_br_0_inner_error := error(""nested"",y, message ,[_result_0])
+    ys_br_0_error = [y[""@id""],ys_br_0_inner_error]
+  ]
+  ys_br_0_errors = { nodeId | n = ys_br_0[_]; nodeId = n[0] }
+  ys_br_0_errors_errors = [ node | n = ys_br_0[_]; node = n[1] ]
+  y_errorAcc1 = array.concat(y_errorAcc0,ys_br_0_errors_errors)
+  y_errorAcc = y_errorAcc1
+  # let's accumulate results
+  ys_error_node_variables_agg = ys_br_0_errors
+  count(ys_error_node_variables_agg) > 0
+  _result_1 := trace(""nested"",""http://e/#b"",x,{""@type"": [""reportSchema:TraceValueNode"", ""validation:TraceValue""], ""negated"":false, ""failedNodes"":count(ys_error_node_variables_agg), ""successfulNodes"":(count(ys)-count(ys_error_node_variables_agg)),""subResult"": y_errorAcc})
+  msg_var_0 := object.get(x, ""http://e/#a"", ""null"")
+  message_vars := [msg_var_0]
+  message := sprintf(""m %v"", message_vars)
+  matches := error(""v1"",x, message ,[_result_0,_result_1])
+}", 5).
+Proof. vm_compute. reflexivity. Qed.
+
 Print Assumptions C07_tie_letters.
 Print Assumptions C07_tie_templates.
 Print Assumptions C07_keywords_plain.
@@ -173,3 +259,6 @@ Print Assumptions C07_path_step_variables_bound_once.
 Print Assumptions C07_rule_bodies_are_safe.
 Print Assumptions C07_snippets_are_well_scoped.
 Print Assumptions C07_rule_text_example.
+Print Assumptions C07_text_generator_terminates.
+Print Assumptions C07_accepted_profile_gets_its_module.
+Print Assumptions C07_module_text_example.
